@@ -69,10 +69,10 @@ func runC07(c *Ctx) {
 			c.Unk("C07.iii-writer-owned", "ProviderCache."+f, token.NoPos, "writer-owned field not found")
 		}
 	}
-	if tn, ok := p.Types.Scope().Lookup("cacheInfo").(*types.TypeName); ok {
+	if tn, ok := p.Types.Scope().Lookup(c.ActualType(pcachePkg, "cacheInfo")).(*types.TypeName); ok {
 		st := tn.Type().Underlying().(*types.Struct)
 		for i := 0; i < st.NumFields(); i++ {
-			owned[st.Field(i)] = "cacheInfo." + st.Field(i).Name()
+			owned[st.Field(i)] = "cacheInfo." + canonField(st.Field(i))
 		}
 	} else {
 		c.Unk("C07.iii-writer-owned", "cacheInfo", token.NoPos, "writer-side record type not found")
@@ -122,7 +122,7 @@ func runC07(c *Ctx) {
 			if !ok || !isPC(fa.X) {
 				return
 			}
-			fname := deref(fa.X.Type()).Underlying().(*types.Struct).Field(fa.Field).Name()
+			fname := canonField(deref(fa.X.Type()).Underlying().(*types.Struct).Field(fa.Field))
 			refs := fa.Referrers()
 			if refs == nil {
 				return
@@ -191,7 +191,7 @@ func fieldOwner(x *X) string {
 		}
 	}
 	if n, ok := t.(*types.Named); ok {
-		return n.Obj().Name()
+		return canonType(n.Obj())
 	}
 	return ""
 }
